@@ -2,7 +2,7 @@
 what comes back.  Point sets / rows are identified by value (fresh random points are distinct a.s.)."""
 import math, torch
 import torchphysics as tp
-from .common import main, watched, fx
+from .common import main, watched, fx, pick
 
 X = tp.spaces.R1("x")
 LO, HI = 1, 3
@@ -21,7 +21,7 @@ def run_one(s):
         sib = base.make_static(iv(2 if s["iv0"] != 2 else 1000))
         # every third static history runs through a SUM: the observed static sampler is the first part of (part + other static sampler);
         # calls go to the sum, make_static(iv) to the part; the identity of the part's point set = the first three rows of the sum
-        via_sum = kind == "static" and (s["tid"] % 3 == 0 or s["iv0"] >= 1000) and all(op["a"] != "next" for op in s["ops"])
+        via_sum = kind == "static" and (pick(s["tid"], 3, 1) == 0 or s["iv0"] >= 1000) and all(op["a"] != "next" for op in s["ops"])
         part = smp
         if via_sum:
             smp = part + tp.samplers.RandomUniformSampler(dom, n_points=2).make_static()
@@ -68,7 +68,7 @@ def run_one(s):
     ratio = s["ratio"][0] / s["ratio"][1]
     # every other scenario with an even number of points: the same number of rows as a BATCH of two parameter rows (n/2 points each);
     # the documented threshold is that of the whole loss vector
-    batch = n % 2 == 0 and s["tid"] % 2 == 0
+    batch = n % 2 == 0 and pick(s["tid"], 2, 2) == 0
     par = tp.spaces.Points(torch.tensor([[0.0], [1.0]]), tp.spaces.R1("k")) if batch else tp.spaces.Points.empty()
     smp = tp.samplers.AdaptiveThresholdRejectionSampler(dom, resample_ratio=ratio, n_points=(n // 2 if batch else n))
     ids = {}
